@@ -329,7 +329,7 @@ def _c07():
     d = _simple(hs, ["value::number::{fuzzy_equals, fuzzy_less_than, fuzzy_less_than_or_equals, fuzzy_as_int, fuzzy_round, "
                      "epsilon, inverse_epsilon, modulo, real_mod}", "Number::{is_zero, is_positive, is_negative, min, max, clamp}"],
                 "Kani: windows of +-3e-11 around 8 centres (every double inside), full range for the NaN/inf/totality laws; "
-                "engine F: fuzzy_round on every double in [0, 2^40); modulo with divisor in +-{1, 3, 360, 0.1, 2.5, 100} or 0 and "
+                "engine F: fuzzy_round on every double in (-2^40, 2^40); modulo with divisor in +-{1, 3, 360, 0.1, 2.5, 100} or 0 and "
                 "any dividend with |n1| < 2048 |n2|",
                 "number printing (`{:.10}` float formatting does not finish), literal parsing, sass:math functions (libm), "
                 "fuzzy_round of negative numbers (no caller passes one), doubles outside the windows, transitivity of fuzzy equality",
